@@ -21,7 +21,7 @@ def _is_private(name):
 
 
 def _own_nodes(fn):
-    """nodes of fn's own scope (not nested defs / lambdas / classes)."""
+    """nodes of fn's own scope (not nested defs / lambdas / classes / comprehensions)."""
     todo = list(fn.body)
     while todo:
         n = todo.pop()
@@ -29,6 +29,10 @@ def _own_nodes(fn):
         for c in ast.iter_child_nodes(n):
             if isinstance(c, (ast.FunctionDef, ast.AsyncFunctionDef, ast.Lambda, ast.ClassDef)):
                 yield c          # the def itself is visible, its inside is another scope
+                continue
+            if isinstance(c, (ast.ListComp, ast.SetComp, ast.DictComp, ast.GeneratorExp)):
+                # its own scope, except the first iterable, which is evaluated outside
+                todo.append(c.generators[0].iter)
                 continue
             todo.append(c)
 
@@ -45,6 +49,10 @@ def _tail_returns(stmts):
         yield from _tail_returns(last.orelse)
     elif isinstance(last, ast.With):
         yield from _tail_returns(last.body)
+    elif isinstance(last, ast.Try) and not any(isinstance(n, ast.Return) for s in last.finalbody for n in ast.walk(s)):
+        yield from _tail_returns(last.orelse if last.orelse else last.body)
+        for h in last.handlers:
+            yield from _tail_returns(h.body)
 
 
 def _rewrite_tail(stmts, mk, fall):
@@ -60,6 +68,15 @@ def _rewrite_tail(stmts, mk, fall):
         return stmts
     if isinstance(last, ast.With):
         last.body = _rewrite_tail(last.body, mk, fall) or [ast.copy_location(ast.Pass(), last)]
+        return stmts
+    if isinstance(last, ast.Try) and not any(isinstance(n, ast.Return) for s in last.finalbody for n in ast.walk(s)):
+        # (`return v` inside try ... finally evaluates v, runs the finally clause, then returns: `target = v` in its place does the same)
+        if last.orelse:
+            last.orelse = _rewrite_tail(last.orelse, mk, fall)
+        else:
+            last.body = _rewrite_tail(last.body, mk, fall) or [ast.copy_location(ast.Pass(), last)]
+        for h in last.handlers:
+            h.body = _rewrite_tail(h.body, mk, fall) or [ast.copy_location(ast.Pass(), last)]
         return stmts
     return stmts + fall()
 
@@ -176,7 +193,8 @@ def _inline_at(caller, stmt_list, idx, call, helper, is_method, static):
         ctx = "expr"
     elif isinstance(st, ast.Return) and st.value is call:
         ctx = "return"
-    elif isinstance(st, ast.Assign) and st.value is call and len(st.targets) == 1 and isinstance(st.targets[0], (ast.Name, ast.Attribute)):
+    elif isinstance(st, ast.Assign) and st.value is call and len(st.targets) == 1 and (isinstance(st.targets[0], (ast.Name, ast.Attribute)) or (
+            isinstance(st.targets[0], ast.Tuple) and all(isinstance(x, ast.Name) for x in st.targets[0].elts))):
         ctx = "assign"
     else:
         return None
@@ -222,6 +240,8 @@ def _inline_at(caller, stmt_list, idx, call, helper, is_method, static):
     rets = list(_tail_returns(helper.body))
     if ctx == "assign" and isinstance(st.targets[0], ast.Name) and rets and all(isinstance(r.value, ast.Name) and r.value.id == st.targets[0].id for r in rets):
         keep.add(st.targets[0].id)
+    if ctx == "assign" and isinstance(st.targets[0], ast.Tuple) and rets and all(_same_names(r.value, st.targets[0]) for r in rets):
+        keep |= {x.id for x in st.targets[0].elts}
     ren = {n: f"{n}__{helper.name.strip('_')}" for n in (hl & cl) - set(subst) - keep}
     ren.update({p: v for p, v in subst.items() if p != v})
     if ren:
@@ -240,6 +260,8 @@ def _inline_at(caller, stmt_list, idx, call, helper, is_method, static):
         if ctx == "return":
             return [ast.copy_location(ast.Return(value=v), r)]
         if isinstance(v, ast.Name) and isinstance(st.targets[0], ast.Name) and v.id == st.targets[0].id:
+            return []
+        if isinstance(st.targets[0], ast.Tuple) and _same_names(v, st.targets[0]):
             return []
         return [ast.copy_location(ast.Assign(targets=copy.deepcopy(st.targets), value=v if v is not None else ast.Constant(value=None)), r)]
 
@@ -261,6 +283,11 @@ def _blocks(node):
             yield v
     for h in getattr(node, "handlers", []) or []:
         yield h.body
+
+
+def _same_names(value, target):
+    return isinstance(value, ast.Tuple) and len(value.elts) == len(target.elts) and all(
+        isinstance(a, ast.Name) and isinstance(b, ast.Name) and a.id == b.id for a, b in zip(value.elts, target.elts))
 
 
 def _find_calls(owner, helper_name, is_method):
